@@ -302,8 +302,12 @@ def _check_convert(ctx: Ctx, mod, cls, meths) -> tuple[bool, list[str]]:
     shortcuts: list[str] = []
     for iff in [s for s in fn.body if isinstance(s, ast.If) and s.lineno < loop.lineno]:
         t = iff.test
-        if isinstance(t, ast.Compare) and isinstance(t.ops[0], ast.In) and u(t.left) == UN and isinstance(t.comparators[0], (ast.List, ast.Tuple, ast.Set)):
-            shortcuts = [e.value for e in t.comparators[0].elts if isinstance(e, ast.Constant)]
+        if isinstance(t, ast.Compare) and len(t.ops) == 1 and isinstance(t.ops[0], ast.In) and u(t.left) == UN:
+            coll = _literal_collection(mod, cls, fn, t.comparators[0])
+            if coll is None:
+                raise Undecided(f"{q}: the collection of dimensionless markers `{u(t.comparators[0])}` is not a literal list "
+                                f"(local, class-level or module-level)")
+            shortcuts = [e.value for e in coll.elts if isinstance(e, ast.Constant)]
             sc_ok = len(iff.body) == 1 and isinstance(iff.body[0], ast.Return) and u(iff.body[0].value) == VAL
             ctx.check("R2", sc_ok, mod, q, iff, "dimensionless unit strings must return the value unchanged",
                       construct=f"dimensionless shortcut {shortcuts} returns {u(iff.body[0].value) if isinstance(iff.body[0], ast.Return) and iff.body[0].value else '?'}")
@@ -341,12 +345,19 @@ def _check_convert(ctx: Ctx, mod, cls, meths) -> tuple[bool, list[str]]:
             raise Undecided(f"{q}: split unpacking not recognised")
         NAME, POW = tg[0].id, tg[1].id
 
-    def factor_assign(arm):
-        c = [s for s in arm if isinstance(s, ast.Assign) and isinstance(s.targets[0], ast.Name) and "getattr" in u(s.value)]
-        return c[0] if len(c) == 1 else None
-    fac_p, fac_e = factor_assign(has_arm), factor_assign(plain_arm)
-    if fac_p is None or fac_e is None or fac_p.targets[0].id != fac_e.targets[0].id:
-        raise Undecided(f"{q}: factor assignments of the two arms not recognised")
+    def name_assigns(arm):
+        return {s_.targets[0].id: s_ for s_ in arm if isinstance(s_, ast.Assign) and len(s_.targets) == 1
+                and isinstance(s_.targets[0], ast.Name)}
+    a_has, a_plain = name_assigns(has_arm), name_assigns(plain_arm)
+    common = [n for n in a_has if n in a_plain]
+    if len(common) != 1:
+        raise Undecided(f"{q}: factor assignments of the two arms not recognised (assigned in both arms: {common})")
+    fac_p, fac_e = a_has[common[0]], a_plain[common[0]]
+    # temporaries of the exponent arm (e.g. base = getattr(self, name)) are folded into the factor expression
+    tmp = {n: s_.value for n, s_ in a_has.items() if n != common[0]}
+    if tmp:
+        from ..core.astutil import subst
+        fac_p = ast.copy_location(ast.Assign(targets=fac_p.targets, value=subst(fac_p.value, tmp)), fac_p)
     FAC = fac_p.targets[0].id
     fac_names = {FAC} | {s_.targets[0].id for s_ in walk_local(loop) if isinstance(s_, ast.Assign) and len(s_.targets) == 1
                          and isinstance(s_.targets[0], ast.Name) and isinstance(s_.value, ast.Name) and s_.value.id == FAC}
@@ -455,6 +466,36 @@ def _check_convert(ctx: Ctx, mod, cls, meths) -> tuple[bool, list[str]]:
 
 def _is_call(e, name: str) -> bool:
     return isinstance(e, ast.Call) and call_name(e) == name
+
+
+def _literal_collection(mod, cls, fn, e: ast.expr):
+    """list/tuple/set literal denoted by e: the literal itself, frozenset/tuple/list/set(<literal>), or a name bound
+    once to such a literal in the function, the class body or the module."""
+    for _ in range(3):
+        if isinstance(e, (ast.List, ast.Tuple, ast.Set)):
+            return e
+        if isinstance(e, ast.Call) and call_name(e) in ("frozenset", "set", "tuple", "list") and len(e.args) == 1:
+            e = e.args[0]
+            continue
+        name = None
+        if isinstance(e, ast.Name):
+            name = e.id
+        elif isinstance(e, ast.Attribute) and isinstance(e.value, ast.Name) and e.value.id in ("self", "cls", cls.name):
+            name = e.attr
+        if name is None:
+            return None
+        vals = []
+        for scope in (list(stmts_local(fn)), cls.body, mod.tree.body):
+            for st in scope:
+                tg = st.target if isinstance(st, ast.AnnAssign) else (st.targets[0] if isinstance(st, ast.Assign) and len(st.targets) == 1 else None)
+                if isinstance(tg, ast.Name) and tg.id == name and getattr(st, "value", None) is not None:
+                    vals.append(st.value)
+            if vals:
+                break
+        if len(vals) != 1:
+            return None
+        e = vals[0]
+    return None
 
 
 # =====================================================================================
